@@ -66,6 +66,15 @@ def c11_chunk(args):
         else:
             secs = rng.choice([0, 1, 59, 2 ** 32, U64, rng.getrandbits(rng.randrange(1, 65))])
             nanos = rng.choice([0, 1, 999, 999_999_999, rng.randrange(10 ** 9)])
+            r = rng.random()
+            if r < 0.3:
+                # total nanoseconds next to a power of two (carries between the seconds and the sub-second part)
+                tot = 2 ** rng.choice([31, 32, 53, 63, 64, 64, 64, 65, 73, 93]) + rng.choice([-2, -1, 0, 1, 2, rng.randrange(10 ** 9), -rng.randrange(10 ** 9)])
+                secs, nanos = min(max(tot, 0) // 10 ** 9, U64), max(tot, 0) % 10 ** 9
+            elif r < 0.45:
+                # the whole-seconds value at which seconds * 10^9 stops fitting into 64 bits, with every kind of sub-second part
+                secs = U64 // 10 ** 9 + rng.choice([-1, 0, 0, 0, 1])
+                nanos = rng.choice([0, 709_551_614, 709_551_615, 709_551_616, 999_999_999, rng.randrange(10 ** 9)])
             qs.append("F %d %d" % (secs, nanos))
             meta.append(("F", secs, nanos))
     ans = ask(exe, qs)
